@@ -5,12 +5,13 @@ import (
 	"bytes"
 	"fmt"
 	"go/ast"
+	"go/constant"
 	"go/parser"
 	"go/token"
+	"go/types"
 	"os"
 	"path/filepath"
 	"runtime"
-	"strconv"
 	"sync"
 
 	"github.com/kaitai-io/kaitai_struct_go_runtime/kaitai"
@@ -66,28 +67,36 @@ func schemaCompressionCodes() (map[int64]string, error) {
 			enumErr = err
 			return
 		}
+		// constants are evaluated by the type checker (literal values, iota, expressions alike); the imported runtime
+		// package is not needed for that, so imports resolve to empty packages and the resulting errors are ignored
+		conf := types.Config{Importer: emptyImporter{}, Error: func(error) {}}
+		pkg, _ := conf.Check("gokaitai", fset, []*ast.File{f}, nil)
 		enumVals = map[int64]string{}
-		for _, d := range f.Decls {
-			gd, ok := d.(*ast.GenDecl)
-			if !ok || gd.Tok != token.CONST {
+		if pkg == nil {
+			enumErr = fmt.Errorf("cannot type-check %s", src)
+			return
+		}
+		for _, name := range pkg.Scope().Names() {
+			c, ok := pkg.Scope().Lookup(name).(*types.Const)
+			if !ok {
 				continue
 			}
-			for _, sp := range gd.Specs {
-				vs := sp.(*ast.ValueSpec)
-				id, ok := vs.Type.(*ast.Ident)
-				if !ok || id.Name != "RecordioV4_Compression" || len(vs.Values) != 1 {
-					continue
-				}
-				if bl, ok := vs.Values[0].(*ast.BasicLit); ok {
-					n, err := strconv.ParseInt(bl.Value, 0, 64)
-					if err == nil {
-						enumVals[n] = vs.Names[0].Name
-					}
-				}
+			nt, ok := c.Type().(*types.Named)
+			if !ok || nt.Obj().Name() != "RecordioV4_Compression" {
+				continue
+			}
+			if n, exact := constant.Int64Val(constant.ToInt(c.Val())); exact {
+				enumVals[n] = name
 			}
 		}
 	})
 	return enumVals, enumErr
+}
+
+type emptyImporter struct{}
+
+func (emptyImporter) Import(path string) (*types.Package, error) {
+	return types.NewPackage(path, filepath.Base(path)), nil
 }
 
 func Prop(c Case, x *h.Ctx) *h.Violation {
